@@ -221,6 +221,9 @@ func deleteChildren(client *dynamicclientset.ResourceClient, parent *unstructure
 type lastUpdate struct {
 	hash               uint64
 	resourcegeneration int64
+	// uid of the object the apply was sent to: an object re-created under the
+	// same name starts over at the same generation, but never has the same UID.
+	uid types.UID
 }
 
 var (
@@ -249,7 +252,7 @@ func updateChildren(client *dynamicclientset.ResourceClient, updateStrategy Chil
 				cacheLock.RLock()
 				if lastUpdated, ok := lastUpdatedCache[lastUpdateCacheName]; ok {
 					cacheLock.RUnlock()
-					if lastUpdated.hash == hash && lastUpdated.resourcegeneration == oldObj.GetGeneration() {
+					if lastUpdated.hash == hash && lastUpdated.resourcegeneration == oldObj.GetGeneration() && lastUpdated.uid == oldObj.GetUID() {
 						logging.Logger.Info("Skipping update, no changes detected", "name", lastUpdateCacheName)
 						continue
 					}
@@ -289,6 +292,7 @@ func updateChildren(client *dynamicclientset.ResourceClient, updateStrategy Chil
 			lastUpdatedCache[lastUpdateCacheName] = &lastUpdate{
 				hash:               hash,
 				resourcegeneration: patched.GetGeneration(),
+				uid:                patched.GetUID(),
 			}
 
 			logging.Logger.Info("Cache updated", "name", lastUpdateCacheName)
